@@ -122,11 +122,12 @@ class Creators:
       self.process_line_queue()
       gfa_line.connect(self)
     elif rt in ["E", "F", "G", "U", "O"]:
+      if isinstance(gfa_line, str):
+        # (constructed first: a malformed line shall not set the version)
+        gfa_line = gfapy.Line(gfa_line, vlevel=self._vlevel,
+            version="gfa2", dialect=self._dialect)
       self._version = "gfa2"
       self._version_explanation = "implied by: presence of a {} line".format(rt)
-      if isinstance(gfa_line, str):
-        gfa_line = gfapy.Line(gfa_line, vlevel=self._vlevel,
-            version=self._version, dialect=self._dialect)
       self.process_line_queue()
       gfa_line.connect(self)
     elif rt in ["L", "C", "P"]:
